@@ -239,6 +239,14 @@ def gen_script(rng, app_slots=False, small=False):
                                   {'cancel': rng.sample(all_uids, min(len(all_uids), rng.randint(1, 2)))})
         if all_uids and rng.random() < 0.2:
             it['marks'] = rng.sample(all_uids, 1) if rng.random() < 0.7 else [uid + rng.randint(0, 2)]
+        if all_uids and rng.random() < 0.3:
+            # a cancel request as the agent sees it: the component's control callback marks the uids
+            # and the scheduler's control callback queues the CANCEL message, for the same uids; the
+            # message may be drained before, between or after the requests that arrive with it
+            cu = rng.sample(all_uids[-6:], min(len(all_uids[-6:]), rng.randint(1, 2)))
+            if rng.random() < 0.2: cu.append(uid + rng.randint(0, 2))      # not arrived yet
+            it['marks'] = list(it['marks']) + [u for u in cu if u not in it['marks']]
+            it['incoming'].insert(rng.randrange(len(it['incoming']) + 1), {'cancel': cu})
         if rng.random() < 0.15:
             it['envs'] = [rng.choice([0, 1])]
         it['unsched'] = 'auto'     # filled in by `fill_releases` from what really started
